@@ -436,7 +436,7 @@ func runHistory(kind string, ops []Op, tr *hx.Trace) {
 		}
 	}
 
-	rec.Coq = coqCase(ops[:len(obs)], obs)
+	rec.Coq = "Seq (" + coqCase(ops[:len(obs)], obs) + ")"
 	rec.Observed = obs
 	rec.Class = strings.Join(classParts, ",")
 	rec.Trivial = !nontrivial
@@ -600,6 +600,17 @@ func main() {
 			os.Exit(2)
 		}
 
+		var cc struct {
+			Case struct {
+				Conc *ConcCase `json:"conc"`
+			} `json:"case"`
+		}
+
+		if json.Unmarshal(b, &cc) == nil && cc.Case.Conc != nil {
+			runConc("replay", *cc.Case.Conc, tr)
+			return
+		}
+
 		var c struct {
 			Case []Op `json:"case"`
 			Ops  []Op `json:"ops"`
@@ -626,11 +637,16 @@ func main() {
 	enumerate(full, 2, func(ops []Op) { runHistory("exhaustive-full", ops, tr) })
 
 	deep := 3
-	nRandom, nAsync := 1200, 60
+	nRandom, nAsync, nConc := 1200, 60, 160
 
 	if args.Tier == "thorough" {
 		deep = 4
-		nRandom, nAsync = 30000, 600
+		nRandom, nAsync, nConc = 30000, 600, 100000
+	}
+
+	// forced overlaps of two operations (A parked inside a store call / the send while B is started)
+	for _, c := range concCases(rng.Fork(7_000_000), nConc) {
+		runConc("overlap", c, tr)
 	}
 
 	enumerate(small, deep, func(ops []Op) { runHistory("exhaustive-small", ops, tr) })
